@@ -11,10 +11,11 @@ def check():
          dict(builder=orders.pade_builder, n_quick=1, n_thorough=1, nontrivial=lambda r: r.get("status") == "Success"),
          dict(builder=orders.radau_steps_builder, n_quick=1, n_thorough=1),
          dict(builder=orders.rk4_tail_builder, n_quick=1, n_thorough=1, group_oracle=orders.rk4_tail_group_oracle,
-              nontrivial=lambda r: r.get("status") == "Success")],
+              nontrivial=lambda r: r.get("status") == "Success"),
+         dict(builder=orders.tolscale_builder, n_quick=1, n_thorough=1, group_oracle=orders.tolscale_group_oracle)],
         [oracles.oracle_shapes, orders.oracle_pade, orders.oracle_radau_steps],
         TB + ["model/Tableau.v: hand-written assembly of the applied Butcher arrays from the generated constants; tied to the Rust loops by the bit-exact solver replay",
               "Butcher's theorem (order conditions <=> local error O(h^(p+1))) is the classical bridge and is not re-proved"],
         "theorems of coq/props/C02.v over the constants regenerated from the source; plus single steps of size h0/2^k from exact data on "
         "closed-form, explicitly time-dependent problems, both signs of h, methods RK4/RK23/DOPRI5/DOP853/Radau: fitted slope of the "
-        "one-step error must be >= p+1-1.3; one Radau step on y'=lambda*y for z = h*lambda from -1e-3 to -1e8 (and 0.25) must equal the (2,3) Pade approximant to 1e-10; every accepted step of multi-step Radau runs on y''=-y+y^3/6+eps*t at tolerances 1e-8/1e-10 must have local error <= 0.05 h^6 against the exact flow; RK4 with two full steps and a shortened last one from exact data (final error ~ h^5, interior of the last step ~ h^4); every run replayed bit-for-bit on the model")
+        "one-step error must be >= p+1-1.3; one Radau step on y'=lambda*y for z = h*lambda from -1e-3 to -1e8 (and 0.25) must equal the (2,3) Pade approximant to 1e-10; every accepted step of multi-step Radau runs on y''=-y+y^3/6+eps*t at tolerances 1e-8/1e-10 must have local error <= 0.05 h^6 against the exact flow; adaptive runs of RK23/DOPRI5/DOP853 over a ladder of tolerances (accepted steps must grow no faster than tol^-(1/(q+1)+0.03): the estimator's order as applied); RK4 with two full steps and a shortened last one from exact data (final error ~ h^5, interior of the last step ~ h^4); every run replayed bit-for-bit on the model")
